@@ -1,4 +1,5 @@
 import ModelD.Scsv
+import ModelD.ScsvTerse
 import Driver.Proto
 import Std.Data.HashMap
 /-! driver ops for K29–K31 (`io.save_scsv`, `read_scsv`, `_validate_scsv_schema`,
@@ -290,6 +291,15 @@ def handle (toks : List String) : Option String :=
       (match pyIntOfStr s with | some i => "i" ++ toString i | none => "!") ++ " " ++
       fmtBool (parseBool s) ++ " " ++ fmtBool (s.all Yaml.isYamlPrintable) ++ " " ++
       fmtBool (namedtupleOK [s]))
+  | ["scsv-terse", t] =>
+    match parseTerse (strOfHex (t.drop 1).toString) with
+    | .error e => some ("err " ++ errName e)
+    | .ok sch =>
+      let o (x : Option Str) := match x with | some v => "s" ++ hexOfStr v | none => "-"
+      let fl (x : Option PyVal) := match x with | some (.str v) => "s" ++ hexOfStr v | _ => "-"
+      let fs := sch.fields.getD []
+      some ("ok " ++ o sch.delimiter ++ " " ++ o sch.missing ++ " " ++ toString fs.length ++ " " ++
+        " ".intercalate (fs.map fun f => o f.name ++ " " ++ o f.type ++ " " ++ o f.unit ++ " " ++ fl f.fill))
   | ["scsv-strint", i] => some ("ok s" ++ hexOfStr (pyStrInt i.toInt!))
   | ["scsv-charclasses", lo, hi] =>
     -- code points in [lo, hi) that are whitespace / id-start / id-continue / YAML-printable
